@@ -54,7 +54,10 @@ func (ka *signedKeyAgreement) signParameters(config *Config, cert *Certificate, 
 		ka.sh.Hash = tls12HashId
 	}
 	ka.sh.Signature = ka.sigType
-	hashFunc := supportedHashFunc[tls12HashId]
+	hashFunc, ok := supportedHashFunc[tls12HashId]
+	if !ok && ka.version >= VersionTLS12 && ka.sigType != signatureEd25519 {
+		return nil, errors.New("tls: unsupported hash function for ServerKeyExchange")
+	}
 	digest := hashForServerKeyExchange(ka.sigType, hashFunc, ka.version, clientHello.random, hello.random, params)
 	if err != nil {
 		return nil, err
@@ -140,7 +143,10 @@ func (ka *signedKeyAgreement) verifyParameters(config *Config, clientHello *clie
 	sig = sig[2:]
 	ka.raw = sig
 
-	hashFunc := supportedHashFunc[tls12HashId]
+	hashFunc, ok := supportedHashFunc[tls12HashId]
+	if !ok && ka.version >= VersionTLS12 && ka.sigType != signatureEd25519 {
+		return nil, errors.New("tls: unsupported hash function for ServerKeyExchange")
+	}
 	digest := hashForServerKeyExchange(ka.sigType, hashFunc, ka.version, clientHello.random, serverHello.random, params)
 	switch ka.sigType {
 	case signatureECDSA:
